@@ -17,30 +17,32 @@ PLAIN = ["1", "1.0", "2.36.1", "0.9", "10", "2.36-1"]
 
 
 def family_texts(cls, t):
+    """(kind, texts): small variations of the version text t"""
     fams = []
     nums = list(re.finditer(r"\d+", t))
-    fams.append([t] + [t[:m.start()] + z + m.group() + t[m.end():] for m in nums for z in ("0", "00")])
-    fams.append([t, t + ".1", t + ".1.2", t + ".1.2.3", t + ".0", t + ".0.0", t + ".1.2.3.4"])
+    fams.append(("zero-padding", [t] + [t[:m.start()] + z + m.group() + t[m.end():] for m in nums for z in ("0", "00")]))
+    fams.append(("components", [t, t + ".1", t + ".1.2", t + ".1.2.3", t + ".0", t + ".0.0", t + ".1.2.3.4"]))
     sfx = list(gens.SUFFIX_DICT.get(cls.__name__, []))
-    fams.append([t] + [t + x for x in sfx])
-    fams.append(list(dict.fromkeys([t, t.upper(), t.lower(), t.capitalize(), t.swapcase()])))
-    fams.append([t, t + "-", t + "-0", "0:" + t, "00:" + t, t + "+", t + ".", t + "~", t + "-0-0", t + "-1-", "1:" + t, ":" + t, t + "_", "+" + t])
+    fams.append(("suffixes", [t] + [t + x for x in sfx]))
+    fams.append(("case", list(dict.fromkeys([t, t.upper(), t.lower(), t.capitalize(), t.swapcase()]))))
+    fams.append(("decorations", [t, t + "-", t + "-0", "0:" + t, "00:" + t, t + "+", t + ".", t + "~", t + "-0-0", t + "-1-", "1:" + t, ":" + t, t + "_", "+" + t]))
     return fams
 
 
-def families(r, cls, nbase):
-    """lists of version objects of cls that belong together (same base, small variations)"""
+def families(r, cls, nbase, with_kind=False):
+    """lists of version objects of cls that belong together (same base, small variations); the plain dotted numbers
+    (the most common versions, and the ones fast paths are written for) come first, then bases of the class's grammar"""
     out = []
-    bases = gens.valid_pool(r, cls, nbase)
-    # plain dotted numbers too: the most common versions, and the ones fast paths are written for
+    bases = []
     for t in PLAIN:
         try:
             bases.append(cls(t))
         except Exception:  # noqa
             pass
+    bases += gens.valid_pool(r, cls, nbase)
     mined = gens.mined_suffixes(cls)
-    for v in bases:
-        for fam in family_texts(cls, v.string):
+    for bi, v in enumerate(bases):
+        for kind, fam in family_texts(cls, v.string):
             objs, seen = [], set()
             for s in fam:
                 if s in seen:
@@ -51,7 +53,7 @@ def families(r, cls, nbase):
                 except Exception:  # noqa
                     continue
             if len(objs) >= 2:
-                out.append(objs)
+                out.append((bi, kind, objs))
         near = [v] + gens.neighbours(r, cls, v.string, k=4)
         if mined:
             for _ in range(3):
@@ -60,19 +62,23 @@ def families(r, cls, nbase):
                 except Exception:  # noqa
                     pass
         if len(near) >= 2:
-            out.append(near)
-    return out
+            out.append((bi, "neighbours", near))
+    return out if with_kind else [o for _, _, o in out]
 
 
 def pairs(r, cls, nbase, cap):
-    """the base of every family against each of its variations, both ways round (always kept), then variations against
-    one another (shuffled, up to cap in all)"""
+    """always kept: the base of every family against each of its variations, both ways round, and - for the first two
+    bases - every two suffixes of the scheme's dictionary against one another; then other variations against one another
+    (shuffled, up to cap in all)"""
     primary, secondary = [], []
-    for fam in families(r, cls, nbase):
+    for bi, kind, fam in families(r, cls, nbase, with_kind=True):
         base = fam[0]
         for x in fam[1:]:
             primary += [(base, x), (x, base)]
         rest = fam[1:]
+        if kind == "suffixes" and bi < 2:
+            primary.extend(itertools.permutations(rest, 2))
+            continue
         r.shuffle(rest)
         secondary.extend(itertools.permutations(rest[:5], 2))
     r.shuffle(secondary)
